@@ -120,6 +120,18 @@ check('C11',
       'is wrapped in 1 and 2 pairs of parentheses; the AST must not change.',
       TRUST + ' Names that are operator words are excluded by an assumption, as in the property.', 'relational symbolic execution of rustc MIR with z3', 'DESIGN.md section 5 C11')
 
+check('C10',
+      'Bounded symbolic execution of the private Tokenizer driven to EOF (Tokenizer::new/next from MIR) on (U) all UTF-8 inputs of <= 3 (4) bytes, (S) string-literal shaped inputs with symbolic 1-3 byte characters and trailing bytes, '
+      '(R) inputs around a freshly registered two-character operator whose characters are symbolic. On every path: spans in bounds / on character boundaries / increasing, gap bytes are whitespace and token text equals the source slice (z3 validity over the byte variables), '
+      'and the token sequence equals that of a reference tokenizer (the documented lexical rules) evaluated under the same path condition; error paths must be errors of the reference too.',
+      TRUST + ' Oracle: the reference tokenizer in harness/c10.py.', 'symbolic execution of rustc MIR with z3; reference tokenizer under the same path condition', 'DESIGN.md section 5 C10')
+
+check('C16',
+      'Sequential isolation by bounded symbolic execution: for all 625 ordered pairs (A,B) of 25 programs and four history modes (A parsed only / evaluated once / evaluated 130 times / same AST twice), with symbolic integers in the contexts, '
+      'B after the history must equal B alone in outcome, value and final context (z3 validity), A\'s context is untouched, and a repeated exec of one AST agrees. Buffer addresses are unconstrained symbols (an allocator may reuse them). '
+      'Global cells changed by a call are listed in the evidence (a violation only through an observable difference). The concurrent half of C16 is covered by C13.',
+      TRUST + ' Counterexamples replayed natively from a reused line buffer.', 'symbolic execution of rustc MIR with z3 over call histories; symbolic addresses', 'DESIGN.md section 5 C16')
+
 import sys
 props = [json.loads(l) for l in open('/verif/properties.jsonl')]
 for p in props:
